@@ -73,7 +73,11 @@ def oracle(chk, quick=True):
         h = hl.HyperLogLog(p)
         for a in arrays:
             h.registers[:] = a
-            got, want = float(h.query()), reference(a, p, consts)
+            want = reference(a, p, consts)
+            try:
+                got = float(h.query())
+            except Exception as e:  # the estimator must answer for every register state
+                return n + 1, {"key": "HyperLogLog(p=%d) registers: %d zero, min %d max %d" % (p, int(m - np.count_nonzero(a)), int(a.min()), int(a.max())), "p": p, "zeros": int(m - np.count_nonzero(a)), "observed": "query() raised %s: %s" % (type(e).__name__, e), "expected": want, "how": "bounded oracle: synthetic register arrays vs the property's formula"}
             n += 1
             if not (abs(got - want) <= 1e-9 * max(1.0, abs(want))):
                 return n, {"key": "HyperLogLog(p=%d) registers: %d zero, min %d max %d" % (p, int(m - np.count_nonzero(a)), int(a.min()), int(a.max())), "p": p, "zeros": int(m - np.count_nonzero(a)), "observed": got, "expected": want, "how": "bounded oracle: synthetic register arrays vs the property's formula"}
@@ -181,6 +185,9 @@ def query_fresh_oracle(chk):
 
 
 def query_fresh(chk, found):
+    if ("hll-query-fresh",) in chk.done:
+        return
+    chk.done.add(("hll-query-fresh",))
     if found is None:
         cache = {}
 
